@@ -65,7 +65,9 @@ EvCert ==
 EvCase ==
   /\ Ev("case")
   /\ LET e == Trace[l] IN
-     /\ cases' = IF e.i = Len(cases) + 1 THEN Append(cases, [m |-> e.m, r |-> e.r, l |-> e.l, gi |-> e.gi]) ELSE cases
+     /\ cases' = IF e.i = Len(cases) + 1
+                 THEN Append(cases, [m |-> e.m, r |-> e.r, l |-> e.l, gi |-> e.gi, nc |-> IF "nc" \in DOMAIN e THEN e.nc ELSE FALSE])
+                 ELSE cases
      /\ Report(IF e.i = Len(cases) + 1 THEN <<>> ELSE <<V("Complete", [what |-> "claim numbering", i |-> e.i])>>)
   /\ l' = l + 1 /\ UNCHANGED <<t, flow, k, seen, open>>
 
@@ -110,9 +112,14 @@ EvCarry ==
   /\ LET e == Trace[l] IN
      IF ~Known(e.i) THEN Extra(e, e.at)
      ELSE LET c == cases[e.i] IN
+          \* nc: the claim event carried a non-canonical value of a mainnet index (junk in the rollup bits, ignored by the bridge
+          \* contract). The certificate then holds the triple with those bits; every consumer fed from the certificate still has to
+          \* carry the value composed from the triple (rollup bits zero). The optimistic commitment is computed from the claim
+          \* event itself and is not judged for such a claim.
           /\ Report(IF e.kind = "t"
-                    THEN IF TripleOK(c, e.t) THEN <<>>
+                    THEN IF TripleOK(c, e.t) \/ (c.nc /\ e.t.m = c.m /\ e.t.l = c.l) THEN <<>>
                          ELSE <<V("CarriesTriple", [i |-> e.i, at |-> e.at, input |-> c, got |-> e.t])>>
+                    ELSE IF c.nc /\ e.at = "opt_commit" THEN <<>>
                     ELSE ValueViol(c, e.v, "CarriesValue", "CarriesValue", [i |-> e.i, at |-> e.at, input |-> c, got |-> e.v])
                          \o (IF e.v.n # 32 THEN <<V("FixedWidth", [i |-> e.i, at |-> e.at, n |-> e.v.n])>> ELSE <<>>))
           /\ seen' = seen \cup {<<e.i, e.at>>}
